@@ -108,6 +108,9 @@ impl World {
 
 #[derive(Clone, Debug)]
 pub struct Knobs {
+    /// use the harness rule `verif_include` (source -> source dependencies through
+    /// `Rule::require_content`); L1 with a configuration object only
+    pub include_graph: bool,
     pub layer: Layer,
     pub max_ops: usize,
     pub allow_faults: bool,
@@ -149,6 +152,16 @@ pub fn generate(seed: u64, knobs: &Knobs) -> C10Scenario {
         allow_file_input: true,
         allow_bundle: true,
         memory_safe: backend == Backend::Memory,
+    };
+    let graph_mode = knobs.include_graph && knobs.layer == Layer::L1;
+    let pk = if graph_mode {
+        ProjectKnobs {
+            allow_file_input: false,
+            allow_bundle: false,
+            ..pk
+        }
+    } else {
+        pk
     };
     let mut project: Project = gen::gen_project(&mut rp, &pk);
     if project.input_is_file && project.bundle.is_none() {
@@ -215,7 +228,45 @@ pub fn generate(seed: u64, knobs: &Knobs) -> C10Scenario {
     if knobs.layer == Layer::L2 {
         invocation.opts.generator_override = None;
     }
-    let opts: OptSpec = invocation.opts.clone();
+    let mut include_deps: Option<std::collections::BTreeMap<String, Vec<String>>> = None;
+    if graph_mode {
+        invocation.opts.config = ConfigSource::Object(config_text.clone());
+        invocation
+            .extra_entries
+            .retain(|e| !e.path.starts_with(".darklua") && !e.path.contains("config") && !e.path.starts_with("cfg/"));
+        // source -> sources whose processed output it includes (acyclic, rarely a cycle)
+        let mut deps = std::collections::BTreeMap::new();
+        let n = project.sources.len();
+        for i in 0..n {
+            let mut list = Vec::new();
+            for j in (i + 1)..n {
+                if rk.chance(1, 2) {
+                    list.push(project.sources[j].path.clone());
+                }
+            }
+            if !list.is_empty() {
+                deps.insert(project.sources[i].path.clone(), list);
+            }
+        }
+        if n >= 2 && rk.chance(1, 12) {
+            // a dependency cycle: a fresh run reports cyclic work, so must every pass
+            deps.entry(project.sources[n - 1].path.clone())
+                .or_insert_with(Vec::new)
+                .push(project.sources[0].path.clone());
+            deps.entry(project.sources[0].path.clone())
+                .or_insert_with(Vec::new)
+                .push(project.sources[n - 1].path.clone());
+        }
+        include_deps = Some(deps);
+    }
+    let mut opts: OptSpec = invocation.opts.clone();
+    opts.include_deps = include_deps.clone();
+    // sources that others include are never removed or renamed in graph mode: a rule
+    // that asks for the content of a file that is not a source is a misuse of the API
+    let protected: BTreeSet<String> = include_deps
+        .iter()
+        .flat_map(|d| d.values().flatten().cloned())
+        .collect();
     let output = gen::normalize(opts.output.as_deref().unwrap());
 
     let mut next_id = 0usize;
@@ -488,7 +539,9 @@ pub fn generate(seed: u64, knobs: &Knobs) -> C10Scenario {
                 }
                 let i = rh.below(world.sources.len());
                 let path = world.sources[i].path.clone();
-                if new_ops.iter().any(|o| matches!(o, Op::Edit { path: p, .. } if *p == path)) {
+                if new_ops.iter().any(|o| matches!(o, Op::Edit { path: p, .. } if *p == path))
+                    || protected.contains(&path)
+                {
                     continue;
                 }
                 world.sources.remove(i);
@@ -505,6 +558,9 @@ pub fn generate(seed: u64, knobs: &Knobs) -> C10Scenario {
                     continue;
                 }
                 let dir = rh.pick(&dirs).clone();
+                if protected.iter().any(|p| p.starts_with(&format!("{}/", dir))) {
+                    continue;
+                }
                 let remaining = world
                     .sources
                     .iter()
@@ -541,6 +597,9 @@ pub fn generate(seed: u64, knobs: &Knobs) -> C10Scenario {
                 }
                 let i = rh.below(world.sources.len());
                 let from = world.sources[i].path.clone();
+                if protected.contains(&from) {
+                    continue;
+                }
                 let to = gen::join(
                     gen::parent(&from),
                     &format!("renamed{}.lua", world.sources[i].id),
@@ -665,6 +724,9 @@ pub fn generate(seed: u64, knobs: &Knobs) -> C10Scenario {
                 }
                 let i = rh.below(world.sources.len());
                 let path = world.sources[i].path.clone();
+                if protected.contains(&path) {
+                    continue;
+                }
                 let mirror = match path.strip_prefix(&format!("{}/", world.input)) {
                     Some(rel) => gen::join(&world.output, rel),
                     None => continue,
@@ -733,6 +795,9 @@ pub fn generate(seed: u64, knobs: &Knobs) -> C10Scenario {
                     continue;
                 }
                 let i = rh.below(world.sources.len());
+                if protected.contains(&world.sources[i].path) {
+                    continue;
+                }
                 let mut s = world.sources[i].clone();
                 s.version += 1;
                 let body = world.render(&s);
@@ -967,6 +1032,7 @@ pub fn enumerated(mut index: usize, max_len: usize) -> Option<C10Scenario> {
             config: ConfigSource::Default,
             fail_fast: false,
             generator_override: None,
+            include_deps: None,
         },
         ops,
         use_add_source: false,
